@@ -20,6 +20,7 @@ IdxL(l, n) == IdxE(l, Index(n))
 FieldsQ == <<fA, fB, fC, fE>>
 IdxsQ == <<0, 1, -1, -2, 5>>
 SeqSet(s) == {s[i] : i \in 1..Len(s)}
+O3x(va, vb, vc) == Obj({<<cA, va>>, <<cB, vb>>, <<cC, vc>>})
 SliceOf(x, a, b, c) == Proj(IdxE(x, SliceN(a, b, c)), Identity)
 C1(name, a) == Call1(name, a)
 C2(name, a, b) == Call2(name, a, b)
@@ -304,22 +305,52 @@ SlIdxL1 == SetToSeq({IdxE(b, n) : b \in {Identity, fA}, n \in {Index(k) : k \in 
 SlArr(n) == Arr([i \in 1..n |-> I(i - 1)])
 DocsSlice == {SlArr(n) : n \in 0..SlL} \cup {O1(cA, SlArr(n)) : n \in 0..SlL} \cup {Null, S(<<97, 98, 99>>), O0, I(1), O1(cA, S(cAB)), A2(Null, A1(I(1)))}
 
+(* ---------------- C03: precedence, associativity, projection scope -------------------------- *)
+(* every way of putting an operator around x, with an atom (or the identity, for right-hand sides) as
+   the other operand; three levels give all nestings of up to three operators *)
+PrecAtoms == <<fA, fB, Current, Lit(I(1))>>
+PrecRhs == <<Identity, fA, fB, IdxI(0)>>
+PrecNS == 36
+PrecDim(s) == CASE s \in 1..12 -> Len(PrecAtoms) [] s \in {18, 19, 20, 21, 23} -> Len(PrecRhs) [] OTHER -> 1
+PrecWrap(s, x, k) ==
+  LET r == PrecAtoms[k] q == PrecRhs[k] IN
+  CASE s = 1 -> Pipe(x, r) [] s = 2 -> Pipe(r, x) [] s = 3 -> Or(x, r) [] s = 4 -> Or(r, x)
+    [] s = 5 -> And(x, r) [] s = 6 -> And(r, x) [] s = 7 -> Cmp("eq", x, r) [] s = 8 -> Cmp("eq", r, x)
+    [] s = 9 -> Cmp("lt", x, r) [] s = 10 -> Cmp("lt", r, x) [] s = 11 -> Sub(x, r) [] s = 12 -> Sub(r, x)
+    [] s = 13 -> Not(x) [] s = 14 -> Ref(x) [] s = 15 -> C1("to_array", x) [] s = 16 -> MSL(<<x>>)
+    [] s = 17 -> IdxL(x, 0)
+    [] s = 18 -> Proj(x, q) [] s = 19 -> Proj(Flat(x), q) [] s = 20 -> Proj(IdxE(x, SliceN(IntP(1), NoneP, NoneP)), q)
+    [] s = 21 -> Filt(x, q, fC) [] s = 22 -> Filt(fA, Identity, x) [] s = 23 -> VProj(x, q)
+    [] s = 24 -> Proj(fA, x) [] s = 25 -> Proj(Flat(fA), x) [] s = 26 -> Filt(fA, x, fC) [] s = 27 -> VProj(fA, x)
+    [] s = 28 -> Proj(Identity, x) [] s = 29 -> VProj(Identity, x) [] s = 30 -> Proj(Flat(Identity), x)
+    [] s = 31 -> Filt(Identity, x, fC) [] s = 32 -> Proj(IdxE(fA, SliceN(IntP(1), NoneP, NoneP)), x)
+    [] s = 33 -> MSH(<<KV(cA, x)>>) [] s = 34 -> MSL(<<fA, x>>) [] s = 35 -> C2("not_null", x, fA) [] s = 36 -> Pipe(Pipe(fA, x), fB)
+PrecL1 == PrecAtoms
+DocsPrec == {
+  O3x(O3x(I(1), A2(I(1), O3x(I(2), A1(I(3)), Bool(TRUE))), Bool(TRUE)),
+      A3(O3x(A2(I(1), I(2)), O1(cA, I(5)), I(1)), O2(cA, A2(A1(I(7)), A1(I(8))), cC, Null), A2(I(1), A1(I(2)))),
+      Bool(TRUE)),
+  A3(O3x(I(1), A1(I(2)), Bool(TRUE)), O2(cA, O1(cB, O1(cC, I(3))), cC, Bool(FALSE)), A1(O1(cA, I(4)))),
+  O2(cA, A2(O3x(A1(I(1)), O2(cA, I(1), cC, I(1)), I(1)), O2(cB, A1(O1(cA, I(2))), cA, I(0))),
+     cB, O1(<<120>>, O2(cB, O1(cA, I(9)), cA, O2(cA, I(1), cB, I(1))))),
+  O2(cA, I(1), cB, I(1)), O2(cA, Bool(FALSE), cB, I(0)), I(1), Null, A2(A2(I(1), I(2)), A2(I(0), I(3))) }
+
 (* ---------------- family table ------------------------------------------------------------ *)
-L1 == CASE Family = "C01" -> CoreL1 [] Family = "C02" -> ProjL1 [] Family = "C07" -> OpL1 [] Family = "C07d" -> OpDocL1
+L1 == CASE Family = "C01" -> CoreL1 [] Family = "C03" -> PrecL1 [] Family = "C02" -> ProjL1 [] Family = "C07" -> OpL1 [] Family = "C07d" -> OpDocL1
         [] Family = "C09" -> FnL1 [] Family = "C09n" -> FnNestL1 [] Family = "C10" -> <<>> [] Family = "C10d" -> MxDocL1
         [] Family = "C10k" -> ByL1 [] Family = "C11" -> ErrL1 [] Family = "C16" -> JsonL1
         [] Family = "C08" -> <<>> [] Family = "C08i" -> SlIdxL1
-NS == CASE Family = "C01" -> CoreNS [] Family = "C02" -> ProjNS [] Family = "C07" -> OpNS [] Family = "C09" -> FnNS
+NS == CASE Family = "C01" -> CoreNS [] Family = "C03" -> PrecNS [] Family = "C02" -> ProjNS [] Family = "C07" -> OpNS [] Family = "C09" -> FnNS
         [] Family = "C09n" -> FnNestNS [] Family = "C11" -> CtxNS [] OTHER -> 0
-Dim(s) == CASE Family = "C01" -> CoreDim(s) [] Family = "C02" -> ProjDim(s) [] Family = "C07" -> OpDim(s) [] Family = "C09" -> FnDim(s)
+Dim(s) == CASE Family = "C01" -> CoreDim(s) [] Family = "C03" -> PrecDim(s) [] Family = "C02" -> ProjDim(s) [] Family = "C07" -> OpDim(s) [] Family = "C09" -> FnDim(s)
             [] Family = "C09n" -> FnNestDim(s) [] Family = "C11" -> CtxDim(s)
-Wrap(s, x, k) == CASE Family = "C01" -> CoreWrap(s, x, k) [] Family = "C02" -> ProjWrap(s, x, k) [] Family = "C07" -> OpWrap(s, x, k)
+Wrap(s, x, k) == CASE Family = "C01" -> CoreWrap(s, x, k) [] Family = "C03" -> PrecWrap(s, x, k) [] Family = "C02" -> ProjWrap(s, x, k) [] Family = "C07" -> OpWrap(s, x, k)
                    [] Family = "C09" -> FnWrap(s, x, k) [] Family = "C09n" -> FnNestWrap(s, x, k) [] Family = "C11" -> CtxWrap(s, x, k)
-DocSet == CASE Family = "C01" -> DocsCore [] Family = "C02" -> DocsProj [] Family \in {"C07", "C09", "C10", "C10k"} -> {Null}
+DocSet == CASE Family = "C01" -> DocsCore [] Family = "C03" -> DocsPrec [] Family = "C02" -> DocsProj [] Family \in {"C07", "C09", "C10", "C10k"} -> {Null}
             [] Family = "C07d" -> DocsOp [] Family = "C09n" -> DocsFnNest [] Family = "C10d" -> DocsMx [] Family = "C11" -> DocsCtx
             [] Family = "C16" -> DocsJson [] Family \in {"C08", "C08i"} -> DocsSlice
 (* number of wrapping levels: 1 = only L1; 2 = one Wrap; 3 = two nested Wraps *)
-Levels == CASE Family \in {"C07d", "C10d", "C10k", "C16", "C08i"} -> 1 [] Family = "C08" -> 0 [] Family \in {"C01", "C07", "C11"} -> 3 [] Family = "C10" -> 0 [] OTHER -> 2
+Levels == CASE Family \in {"C07d", "C10d", "C10k", "C16", "C08i"} -> 1 [] Family = "C08" -> 0 [] Family \in {"C01", "C07", "C11", "C03"} -> 3 [] Family = "C10" -> 0 [] OTHER -> 2
 EmitL1 == Family \notin {"C09"}
 Styles == <<StMin, StFull, StQuoted>>
 WsOf(k) == CASE k = 1 -> "tight" [] k = 2 -> "space" [] k = 3 -> "mixed"
